@@ -84,7 +84,7 @@ func (impl Implementation) Dormhr(side blas.Side, trans blas.Transpose, m, n, il
 
 	// Quick return if possible.
 	if m == 0 || n == 0 {
-		work[0] = 1
+		work[0] = float64(max(1, nw))
 		return
 	}
 
